@@ -37,11 +37,11 @@ const (
 
 var errOuterCause = errors.New("c13: configured cancel cause")
 
-// ocStrict (C13_OUTER_STRICT=1, off in every registered run) applies the
+// ocStrict (on; C13_OUTER_STRICT=0 turns it off) applies the
 // timeline-mode promptness oracle also to a reader whose request sits in the
 // 1-slot request channel BUFFER when its context ends. The unchanged RLock
 // does not watch ctx.Done() there (see NOTES.md, proposed_fix_1.diff).
-var ocStrict = os.Getenv("C13_OUTER_STRICT") == "1"
+var ocStrict = os.Getenv("C13_OUTER_STRICT") != "0"
 
 type ocReader struct {
 	name            string
